@@ -806,6 +806,8 @@ class Interp:
                         names = tuple(fl.value.replace(",", " ").split())
                     if names is not None:
                         return VRecordType(str(gv.args[0].value), names)
+                if isinstance(gv, ast.Dict) and all(isinstance(k, ast.Constant) for k in gv.keys) and all(isinstance(v, ast.Constant) for v in gv.values):
+                    return VConstDict([(k.value, self.const(v.value)) for k, v in zip(gv.keys, gv.values)])
                 if isinstance(gv, (ast.Tuple, ast.List, ast.Set)) and all(isinstance(x, ast.Constant) for x in gv.elts):
                     # a module-level table of literals bound once: `_PRECONDITIONERS = (None, 'c', 'r')`
                     items = [self.const(x.value) for x in gv.elts]
@@ -1160,12 +1162,18 @@ class Interp:
             r = VFloat(float(r.p.const_value()))
         if isinstance(l, VInt) and isinstance(r, VFloat) and l.p.const_value() is not None:
             l = VFloat(float(l.p.const_value()))
-        if isinstance(l, VInt) and isinstance(r, (VFloat, VScalar)) or isinstance(l, (VFloat, VScalar)) and isinstance(r, VInt):
+        if (isinstance(l, VInt) and isinstance(r, (VFloat, VScalar)) or isinstance(l, (VFloat, VScalar)) and isinstance(r, VInt)
+                or isinstance(l, VScalar) and isinstance(r, VFloat) or isinstance(l, VFloat) and isinstance(r, VScalar)):
             def show(v):
                 return repr(self.facts.norm(v.p)) if isinstance(v, VInt) else (repr(v.x) if isinstance(v, VFloat) else v.coef.show())
             return VBool(None, f"{show(l)} {sym} {show(r)}")
         if isinstance(l, VFloat) and isinstance(r, VFloat):
             return VBool({"==": l.x == r.x, "!=": l.x != r.x, "<": l.x < r.x, "<=": l.x <= r.x, ">": l.x > r.x, ">=": l.x >= r.x}[sym])
+        for v in (l, r):
+            if isinstance(v, VFunc) and v.dotted not in self.model.functions and v.dotted not in self.model.classes \
+                    and any(v.dotted.startswith(c + ".") for c in self.model.classes):
+                # an attribute of a repository class that is neither a method nor a nested class (a class-level constant, an enum member): unknown
+                raise Unmodelled(f"comparison with the class attribute {v.dotted}")
         if sym in ("==", "!=") and type(l) is not type(r) and isinstance(l, (VSlice, VNone, VOpaque, VStr, VTuple, VList, VInt)) \
                 and isinstance(r, (VSlice, VNone, VOpaque, VStr, VTuple, VList, VInt, VFunc)):
             # values of different kinds are never equal (slice vs Ellipsis, int vs None, ...)
@@ -1224,6 +1232,11 @@ class Interp:
 
     def membership(self, op, l, r, node):
         neg = isinstance(op, ast.NotIn)
+        if isinstance(r, VConstDict):
+            ok, key = self.literal_key(l)
+            if not ok:
+                raise Unmodelled("membership of a non-literal key in a table")
+            return VBool((r.lookup(key) is not None or any(type(k) is type(key) and k == key for k, _ in r.items)) != neg)
         if isinstance(r, (VList, VTuple)) and isinstance(l, (VNone, VStr)) and all(isinstance(x, (VNone, VStr, VInt, VFloat, VBool)) for x in r.items):
             hit = any((isinstance(l, VNone) and isinstance(x, VNone)) or (isinstance(l, VStr) and isinstance(x, VStr) and l.s == x.s) for x in r.items)
             return VBool(hit != neg)
@@ -1377,6 +1390,30 @@ class Interp:
     def ev_Call(self, e, fr):
         from .torchmodel import call
         return call(self, e, fr)
+
+    @staticmethod
+    def literal_key(v):
+        """(True, python value) for a literal dictionary key, else (False, None)"""
+        if isinstance(v, VNone):
+            return True, None
+        if isinstance(v, VStr):
+            return True, v.s
+        if isinstance(v, VBool) and v.v is not None:
+            return True, bool(v.v)
+        if isinstance(v, VInt) and v.p.const_value() is not None:
+            return True, int(v.p.const_value())
+        return False, None
+
+    def ev_Dict(self, e, fr):
+        items = []
+        for k, v in zip(e.keys, e.values):
+            if k is None:
+                raise Unmodelled("dictionary unpacking in a display")
+            ok, key = self.literal_key(self.ev(k, fr))
+            if not ok:
+                raise Unmodelled("dictionary with a key that is not a literal")
+            items.append((key, self.ev(v, fr)))
+        return VConstDict(items)
 
     def ev_Lambda(self, e, fr):
         # a lambda is a closure whose body is one return
